@@ -206,6 +206,19 @@ def run(rep, tier, root=None):
     rep.check(ok, "S6.allowed-size", fa.fq + ": returns the first 2^n + 1 that is not smaller than the request",
               "cannot establish result >= requested size from `while %s` / `return %s`" % (norm_text(wl[0].test) if wl else "?",
                                                                                            norm_text(rets[0].value) if rets else "?"), fa.where())
+    # the recursion stays bounded only if A and B are those of the theoretical covariance: a covariance evaluated in single
+    # precision gives, for pixel_scale << L0, an A with spectral radius > 1 although the Cholesky test on Cov_zz passes
+    from ..common import narrowing_casts
+    fpc = ix.func("aotools.turbulence.turb", "phase_covariance")
+    rep.functions_analysed.add(fpc.fq)
+    nc_ = narrowing_casts(fpc)
+    for node_, text_ in nc_:
+        rep.violation("S6.covariance-precision", "%s: %s" % (fpc.fq, text_),
+                      "%s: the covariance the A and B matrices are solved from has single precision; for finely sampled screens "
+                      "(pixel_scale/L0 below about 1e-4) the row recursion then has spectral radius above 1 and the exposed screen "
+                      "overflows to inf / nan after some hundred add_row() steps" % text_, fpc.where(node_))
+    if not nc_:
+        rep.ok("S6.covariance-precision", fpc.fq + ": the covariance is evaluated in double precision")
     rep.floor("C05 obligations", len(rep.obligations), 22)
 
 
